@@ -90,6 +90,10 @@ structure DSt where
   book : AsyncDrv.Book := {}
   /-- the asynchronous model, settled after every operation (compared on single-entry cases) -/
   amodel : Async.ASt := {}
+  /-- gated recorders whose goroutine already holds its one event inside `Handle` -/
+  holding : List Async.Key := []
+  /-- the gates have been opened (first `final` line) -/
+  released : Bool := false
   br : List String := []
   nt : Bool := false
 
@@ -103,6 +107,9 @@ def judge (_id : String) (lines : Array String) : Verdict := Id.run do
     | ["final", "srec", n, T] =>
       let some n := unesc n | return .badop l
       let some T := unesc T | return .badop l
+      if !st.released then
+        -- the harness opens every gate before the first `final`: the gated handlers drain their queues
+        st := { st with released := true, amodel := Async.settleC st.book.cap [] (st.amodel.specs.length + 2) st.amodel }
       let m := renderL ((st.model.received n T).map renderSEv)
       -- the schedule-quantified clauses (valid whatever the interleaving was): every case
       let some obsEvs := (match obs with | [tok] => AsyncDrv.parseObs tok | _ => none) | return .badop l
@@ -116,6 +123,8 @@ def judge (_id : String) (lines : Array String) : Verdict := Id.run do
       -- from here on: single-entry cases only (deterministic delivery)
       let am := renderL ((st.amodel.received n T).map renderSEv)
       if obs != [am] then return .mismatch s!"recorder {esc n} topic {esc T}: asynchronous model {am} observed {obs}"
+      -- a gated recorder misses what overflowed its own queue: the clauses below (unbounded queues) are not about it
+      if st.book.gates.contains (T, n) then continue
       -- spec clauses on the observed output
       let registered := st.recSince.find? (fun r => r.1 == T && r.2.1 == n)
       match registered with
@@ -153,7 +162,19 @@ def judge (_id : String) (lines : Array String) : Verdict := Id.run do
       if (st.tbl.gotOf n T).any (fun e => e.prev != 0) then st := addBr st "spec-prev-nonzero"
       if m != "-" then st := addBr st "recorder-nonempty"
       if obs != [m] then return .mismatch s!"recorder {esc n} topic {esc T}: model {m} observed {obs}"
+    | ["scap", c] =>
+      let some c := c.toNat? | return .badop l
+      if obs != [toString c] then return .mismatch s!"{l}: the harness runs the service with another topic buffer length: {obs}"
+      st := { addBr st "bounded-queues" with book := { st.book with cap := some c } }
+    | ["ssync"] =>
+      -- every gated handler whose queue holds something takes its one event and blocks inside Handle
+      for g in st.book.gates do
+        if !st.holding.contains g && !(st.amodel.rq g).isEmpty then
+          st := { st with amodel := Async.runR st.amodel g, holding := g :: st.holding }
     | _ =>
+      let (opT, isGate) := match opT with
+        | "sgate" :: rest => ("srec" :: rest, true)
+        | _ => (opT, false)
       match parseOp opT with
       | none => return .badop l
       | some op =>
@@ -183,11 +204,18 @@ def judge (_id : String) (lines : Array String) : Verdict := Id.run do
           if st.book.cols.any (fun c => c.ev.time == ev.time) then return .badop s!"two collects with the same time: {l}"
           st := { st with book := st.book.collect T ev st.model.specs }
           if (st.model.specs.flatMap (·.targets)).contains T then st := addBr st "direct+published"
-        | .recorder T n => st := { st with book := st.book.recorder T n }
+        | .recorder T n =>
+          st := { st with book := st.book.recorder T n }
+          if isGate then st := { addBr st "gated-recorder" with book := { st.book with gates := (T, n) :: st.book.gates } }
         | _ => pure ()
         let (m', ok) := Svc.step st.model op
-        st := { st with model := m', tbl := st.tbl.step op, amodel := Async.stepSettled st.amodel op }
-        if !st.amodel.quiet then return .badop s!"the asynchronous model did not settle: {l}"
+        st := { st with model := m', tbl := st.tbl.step op,
+                        amodel := Async.stepSettledC st.book.cap st.book.gates st.amodel op }
+        if !Async.quietG st.book.gates st.amodel then return .badop s!"the asynchronous model did not settle: {l}"
+        -- protocol of the bounded-queue cases: a gate takes its first event (`ssync`) long before its queue is full
+        if st.book.gates.any (fun g => !st.holding.contains g && Async.full st.book.cap (st.amodel.rq g)) then
+          return .badop s!"the queue of a gated recorder is full before the gate has taken its first event (no ssync): {l}"
+        if st.amodel.specs.any (fun sp => Async.full st.book.cap (st.amodel.hq sp.key)) then st := addBr st "full-spec-queue"
         -- how deep the chain semantics carried this event (coverage of the spec's own branches)
         match op with
         | .collect T _ =>
